@@ -288,6 +288,15 @@ Fixpoint received (a : addr) (os : list obs) : list dgram :=
   | _ :: os' => received a os'
   end.
 
+(* labels that do not require any client other than a to make progress (used by the progress theorem): a's own
+   generator/coroutine moves, first steps of handler tasks, and other generators merely suspending *)
+Definition polite (a : addr) (l : label) : Prop :=
+  match l with
+  | GSuspend _ | HStart false => True
+  | GYield b None | GResume b | PopWake b | TaskStart b => b = a
+  | _ => False
+  end.
+
 (* the datagrams handed to the generators of a client, in order *)
 Definition delivered (c : client) : list dgram := map fst (filter snd (hist c)).
 Definition discarded (c : client) : list dgram := map fst (filter (fun x => negb (snd x)) (hist c)).
